@@ -85,7 +85,7 @@ func init() {
 							acts = append(acts, B("f"+f[3]))
 						}
 					}
-					if end == "rsb=1" || end == "sb=1" {
+					if end == "rsb=1" || end == "sb=1" || end == "rqh=all" || end == "rqh=sbs" {
 						acts = append(acts, B("d"))
 					}
 					if end == "again=1" {
@@ -227,7 +227,7 @@ func init() {
 					}
 					end := ""
 					if r.Chance(20) {
-						end = r.Pick([]string{"te=1", "ter=0", "te=1", "sc=503", "bc=1", "bc=1", "rsb=1", "rsb=1", "sb=1", "again=1", "again=1", "rqh=reset", "rqh=cl0", "rqh=del"})
+						end = r.Pick([]string{"te=1", "ter=0", "te=1", "sc=503", "bc=1", "bc=1", "rsb=1", "rsb=1", "sb=1", "again=1", "again=1", "rqh=reset", "rqh=cl0", "rqh=del", "rqh=all", "rqh=all", "rqh=sbs"})
 					}
 					ver := ""
 					if r.Chance(12) {
